@@ -446,6 +446,9 @@ NAME_POOLS = [
     (["mag vort", "mag", "density", "density2", "I_R(CH4)", "T-1", "mag vort z", "2T"], "densit"),
     # characters that mean something to a pattern matcher (glob / regular expression) but are plain characters of a name
     (["u[1]", "u1", "T*", "Tmax", "p?", "pq", "a.b", "axb"], "u[2]"),
+    # names that differ only by the CASE of their letters (PeleC's Temp next to PeleLMeX's temp): distinct fields; the unknown
+    # name is a known one in another case
+    (["Temp", "temp", "TEMP", "p", "P", "rho", "Rho", "y(h2)"], "Y(H2)"),
 ]
 
 
